@@ -99,7 +99,46 @@ func eClosure(nfaStates set.Set[*nfa.State]) *State {
 		return dfaState.NFAStates[i].ID < dfaState.NFAStates[j].ID
 	})
 
+	// The non-greedy mark stops a token early, so it must only count for the rule
+	// the non-greedy loop belongs to: the state needs an accepting NFA state that
+	// lies behind one of its non-greedy loop exits. A greedy rule that merely
+	// shares this DFA state keeps its longest-match behaviour.
+	if dfaState.NonGreedy && dfaState.Accept {
+		dfaState.NonGreedy = false
+		for _, s := range dfaState.NFAStates {
+			if s.NonGreedy && acceptsBehind(s, closure) {
+				dfaState.NonGreedy = true
+				break
+			}
+		}
+	}
+
 	return dfaState
+}
+
+// acceptsBehind reports whether an accepting NFA state that is a member of
+// 'closure' can be reached from 'from'.
+func acceptsBehind(from *nfa.State, closure map[uint32]*nfa.State) bool {
+	visited := map[uint32]bool{from.ID: true}
+	var pending stack.Stack[*nfa.State]
+	pending.Push(from)
+	for !pending.Empty() {
+		s := pending.Pop()
+		if s.Accept {
+			if _, ok := closure[s.ID]; ok {
+				return true
+			}
+		}
+		s.Transitions.ForEach(func(_ any, tos *array.Array[*nfa.State]) {
+			for _, to := range tos.Elements() {
+				if !visited[to.ID] {
+					visited[to.ID] = true
+					pending.Push(to)
+				}
+			}
+		})
+	}
+	return false
 }
 
 func getInputs(nfaStates []*nfa.State) set.Set[any] {
